@@ -18,39 +18,39 @@ theorem outerNotDone_eq (v : Int) : outerNotDone v = decide (v = 0) := rfl
 theorem innerNotDone_eq (v : Int) : innerNotDone v = decide (v = 0) := rfl
 theorem getNotDone_eq (v : Int) : getNotDone v = decide (v = 0) := rfl
 
-inductive Step (s : State) (t : Nat) : Event → State → Prop
-  | start : s.pc t = .init → Step s t .start (s.setPc t .idle)
-  | exit : s.pc t = .idle → s.rest t = [] → Step s t .exit (s.setPc t .exited)
+inductive Step (c : Cfg) (s : State) (t : Nat) : Event → State → Prop
+  | start : s.pc t = .init → Step c s t .start (s.setPc t .idle)
+  | exit : s.pc t = .idle → s.rest t = [] → Step c s t .exit (s.setPc t .exited)
   | doCall {k r} : s.pc t = .idle → s.rest t = .doK k :: r →
-      Step s t (.doCall k) ({ s with rest := fun i => if i = t then r else s.rest i }.setPc t (.dLoad k))
+      Step c s t (.doCall k) ({ s with rest := fun i => if i = t then r else s.rest i }.setPc t (.dLoad k))
   | getCall {k r} : s.pc t = .idle → s.rest t = .getK k :: r →
-      Step s t (.getCall k) ({ s with rest := fun i => if i = t then r else s.rest i }.setPc t (.gLoad k))
-  | dLoadHit {k} : s.pc t = .dLoad k → (s.key k).alloc = true → Step s t (.mapLoad k true) (s.setPc t (.dLoad1 k))
-  | dLoadMiss {k} : s.pc t = .dLoad k → (s.key k).alloc = false → Step s t (.mapLoad k false) (s.setPc t (.dLos k))
+      Step c s t (.getCall k) ({ s with rest := fun i => if i = t then r else s.rest i }.setPc t (.gLoad k))
+  | dLoadHit {k} : s.pc t = .dLoad k → (s.key k).alloc = true → Step c s t (.mapLoad k true) (s.setPc t (.dLoad1 k))
+  | dLoadMiss {k} : s.pc t = .dLoad k → (s.key k).alloc = false → Step c s t (.mapLoad k false) (s.setPc t (.dLos k))
   | dLos {k} : s.pc t = .dLos k →
-      Step s t (.mapLoadOrStore k (s.key k).alloc) ((s.setKey k { s.key k with alloc := true }).setPc t (.dLoad1 k))
-  | dLoad1Zero {k} : s.pc t = .dLoad1 k → (s.key k).done = 0 → Step s t (.atomicLoad k (s.key k).done) (s.setPc t (.dLock k))
-  | dLoad1Set {k} : s.pc t = .dLoad1 k → (s.key k).done ≠ 0 → Step s t (.atomicLoad k (s.key k).done) (s.setPc t (.dRet k))
+      Step c s t (.mapLoadOrStore k (s.key k).alloc) ((s.setKey k { s.key k with alloc := true }).setPc t (.dLoad1 k))
+  | dLoad1Zero {k} : s.pc t = .dLoad1 k → (s.key k).done = 0 → Step c s t (.atomicLoad k (s.key k).done) (s.setPc t (.dLock k))
+  | dLoad1Set {k} : s.pc t = .dLoad1 k → (s.key k).done ≠ 0 → Step c s t (.atomicLoad k (s.key k).done) (s.setPc t (.dRet k))
   | dLock {k} : s.pc t = .dLock k → (s.key k).owner = none →
-      Step s t (.lock k) ((s.setKey k { s.key k with owner := some t }).setPc t (.dLoad2 k))
-  | dLoad2Zero {k} : s.pc t = .dLoad2 k → (s.key k).done = 0 → Step s t (.atomicLoad k (s.key k).done) (s.setPc t (.dFEnter k))
-  | dLoad2Set {k} : s.pc t = .dLoad2 k → (s.key k).done ≠ 0 → Step s t (.atomicLoad k (s.key k).done) (s.setPc t (.dUnlock k))
+      Step c s t (.lock k) ((s.setKey k { s.key k with owner := some t }).setPc t (.dLoad2 k))
+  | dLoad2Zero {k} : s.pc t = .dLoad2 k → (s.key k).done = 0 → Step c s t (.atomicLoad k (s.key k).done) (s.setPc t (.dFEnter k))
+  | dLoad2Set {k} : s.pc t = .dLoad2 k → (s.key k).done ≠ 0 → Step c s t (.atomicLoad k (s.key k).done) (s.setPc t (.dUnlock k))
   | fEnter {k} : s.pc t = .dFEnter k →
-      Step s t (.fEnter k) ((s.setKey k { s.key k with fcalls := (s.key k).fcalls + 1 }).setPc t (.dInF k ⟨k, (s.key k).fcalls + 1⟩))
-  | fExit {k v} : s.pc t = .dInF k v → Step s t (.fExit k v) ((s.setKey k { s.key k with fret := some v }).setPc t (.dWrite k v))
-  | write {k v} : s.pc t = .dWrite k v → Step s t (.write k) ((s.setKey k { s.key k with result := some v }).setPc t (.dStore k))
-  | store {k} : s.pc t = .dStore k → Step s t (.atomicStore k 1) ((s.setKey k { s.key k with done := 1 }).setPc t (.dUnlock k))
+      Step c s t (.fEnter k) ((s.setKey k { s.key k with fcalls := (s.key k).fcalls + 1 }).setPc t (.dInF k (c.fval k ((s.key k).fcalls + 1))))
+  | fExit {k v} : s.pc t = .dInF k v → Step c s t (.fExit k v) ((s.setKey k { s.key k with fret := some v }).setPc t (.dWrite k v))
+  | write {k v} : s.pc t = .dWrite k v → Step c s t (.write k) ((s.setKey k { s.key k with result := v }).setPc t (.dStore k))
+  | store {k} : s.pc t = .dStore k → Step c s t (.atomicStore k 1) ((s.setKey k { s.key k with done := 1 }).setPc t (.dUnlock k))
   | unlock {k} : s.pc t = .dUnlock k → (s.key k).owner.isSome →
-      Step s t (.unlock k) ((s.setKey k { s.key k with owner := none }).setPc t (.dRet k))
-  | doReturn {k} : s.pc t = .dRet k → Step s t (.doReturn k (s.key k).result) (s.setPc t .idle)
-  | gLoadHit {k} : s.pc t = .gLoad k → (s.key k).alloc = true → Step s t (.mapLoad k true) (s.setPc t (.gLoad1 k))
-  | gLoadMiss {k} : s.pc t = .gLoad k → (s.key k).alloc = false → Step s t (.mapLoad k false) (s.setPc t (.gRetNil k))
-  | gLoad1Zero {k} : s.pc t = .gLoad1 k → (s.key k).done = 0 → Step s t (.atomicLoad k (s.key k).done) (s.setPc t (.gRetNil k))
-  | gLoad1Set {k} : s.pc t = .gLoad1 k → (s.key k).done ≠ 0 → Step s t (.atomicLoad k (s.key k).done) (s.setPc t (.gRet k))
-  | getNil {k} : s.pc t = .gRetNil k → Step s t (.getReturn k none) (s.setPc t .idle)
-  | getVal {k} : s.pc t = .gRet k → Step s t (.getReturn k (s.key k).result) (s.setPc t .idle)
+      Step c s t (.unlock k) ((s.setKey k { s.key k with owner := none }).setPc t (.dRet k))
+  | doReturn {k} : s.pc t = .dRet k → Step c s t (.doReturn k (s.key k).result) (s.setPc t .idle)
+  | gLoadHit {k} : s.pc t = .gLoad k → (s.key k).alloc = true → Step c s t (.mapLoad k true) (s.setPc t (.gLoad1 k))
+  | gLoadMiss {k} : s.pc t = .gLoad k → (s.key k).alloc = false → Step c s t (.mapLoad k false) (s.setPc t (.gRetNil k))
+  | gLoad1Zero {k} : s.pc t = .gLoad1 k → (s.key k).done = 0 → Step c s t (.atomicLoad k (s.key k).done) (s.setPc t (.gRetNil k))
+  | gLoad1Set {k} : s.pc t = .gLoad1 k → (s.key k).done ≠ 0 → Step c s t (.atomicLoad k (s.key k).done) (s.setPc t (.gRet k))
+  | getNil {k} : s.pc t = .gRetNil k → Step c s t (.getReturn k none) (s.setPc t .idle)
+  | getVal {k} : s.pc t = .gRet k → Step c s t (.getReturn k (s.key k).result) (s.setPc t .idle)
 
-theorem step_sound {c : Cfg} {s s' : State} {t : Nat} {e : Event} (h : step c s t e = some s') : Step s t e s' := by
+theorem step_sound {c : Cfg} {s s' : State} {t : Nat} {e : Event} (h : step c s t e = some s') : Step c s t e s' := by
   unfold step at h
   simp only [shapeOK_true, Bool.not_true, Bool.false_eq_true, if_false, afterEntry_eq, afterLock_eq, afterInner_eq,
     afterWrite_eq, afterStore_eq, afterHit_eq, outerNotDone_eq, innerNotDone_eq, getNotDone_eq,
